@@ -97,7 +97,7 @@ STRATS = ("random", "uniform", "pct:2", "pct:3", "pct:5", "after:unlock:1", "aft
 def conc_ledger(tier, seed, name="mixed"):
     n = 400 if tier == "quick" else 12000
     return [(Profile(name, MIXED, threads=(2, 4), ops=(1, 3), n=n, strategies=STRATS, extra="tickp=30"),
-             ["stuck", "mutex"], ["ledger", "lifetime", "timeout"])]
+             ["stuck", "mutex", "follow"], ["ledger", "lifetime", "timeout"])]
 
 
 def fams_ledger(tier, seed):
@@ -120,7 +120,7 @@ def conc_c17(tier, seed):
     return [
         (Profile("lock-contention", LOCK_MACROS, threads=(2, 4), ops=(2, 4), caps=("1", "2", "u"), n=n,
                  strategies=("random", "uniform", "pct:2", "pct:4", "after:lock:1", "after:guard:2", "after:lock:3")),
-         ["mutex", "realtime", "stuck", "proto"], ["lifetime"]),
+         ["mutex", "realtime", "stuck", "proto", "follow"], ["lifetime"]),
     ]
 
 
@@ -135,7 +135,7 @@ def conc_prof(name, macros, monitors, oracles=("ledger", "lifetime", "timeout"),
         n = qn if tier == "quick" else tn
         return [(Profile(name, macros, threads=kw.get("threads", (2, 4)), ops=kw.get("ops", (1, 3)), n=n,
                          strategies=kw.get("strategies", STRATS), caps=kw.get("caps", ("0", "1", "2", "u")), extra="tickp=30"),
-                 list(monitors), list(oracles))]
+                 list(monitors) + ([] if "follow" in monitors else ["follow"]), list(oracles))]
     return f
 
 
